@@ -196,4 +196,13 @@ STRING_TO_COST_FUNCTION = {
         XYCostFunction_GaussApproximation,
         {"errors_to_use": "pointwise"},
     ),
+    # the identifiers written to files are the names of the cost function methods
+    "gaussian_approximation_covariance": (
+        XYCostFunction_GaussApproximation,
+        {"errors_to_use": "covariance"},
+    ),
+    "gaussian_approximation_pointwise_errors": (
+        XYCostFunction_GaussApproximation,
+        {"errors_to_use": "pointwise"},
+    ),
 }
